@@ -119,14 +119,32 @@ def run(res, tier="quick", seed=0, widen=False):
         else:
             values = pd.Series(vals, index=index, name="v")
         exp_pos = expected_api(codes, kind, n)
-        case = dict(level="api", kind=kind, keys=[None if nl else k for k, nl in zip(keys, isnull)], index=index, values=vals, n=n, two_d=two_d)
+        # the grouping may have been used before: fill its caches / re-organise its representation first
+        warm = rng.choice([None, None, "groups", "groups", "apply", "rolling_by_groups", "sum_transform", "head"])
+        case = dict(level="api", kind=kind, keys=[None if nl else k for k, nl in zip(keys, isnull)], index=index, values=vals, n=n, two_d=two_d, warmed_with=warm)
         res.note_case(repr(case), len(order) >= 2 or any(isnull))
-        res.count("api_kind", kind); res.count("api_keytype", kk)
+        res.count("api_kind", kind); res.count("api_keytype", kk); res.count("warmed_with", str(warm))
         if t % 97 == 0:
             res.sample(case)
-        sig = dict(level="api", kind=kind)
+        sig = dict(level="api", kind=kind, warmed=warm is not None)
         try:
-            out = getattr(GroupBy(pd.Series(key_arr, index=index)), kind)(values, n, keep_input_index=True)
+            gbo = GroupBy(pd.Series(key_arr, index=index))
+            if warm is not None:
+                wv = pd.Series(np.arange(L, dtype="float64"), index=index)
+                try:
+                    if warm == "groups":
+                        gbo.groups
+                    elif warm == "apply":
+                        gbo.apply(wv, np.cumsum)
+                    elif warm == "rolling_by_groups":
+                        gbo.rolling_sum(wv, 2, min_periods=1, index_by_groups=True)
+                    elif warm == "sum_transform":
+                        gbo.sum(wv, transform=True)
+                    else:
+                        gbo.head(wv, 1, keep_input_index=True)
+                except Exception:  # noqa: BLE001
+                    pass
+            out = getattr(gbo, kind)(values, n, keep_input_index=True)
         except Exception as e:  # noqa: BLE001
             res.violations.append(dict(sig={**sig, "what": "raised"}, case=case, observed=repr(e)[:300], expected=str(exp_pos), what=f"GroupBy.{kind} raised"))
             continue
